@@ -25,6 +25,7 @@ from .. import core
 
 PROPERTY = "C18"
 MOD = __name__
+PREDICATES = {"merge_key_value": lambda inputs, params: inputs.get("position") == "value of a merge key"}
 FUNCTIONS = [
     "cobald.daemon.core.config:COBalDLoader",
     "cobald.daemon.core.config:add_constructor_plugins",
@@ -382,28 +383,54 @@ def replay_witness(tag, kind):
     return hits
 
 
-FUNNEL_DOCS = [
-    # every node below a registered plugin tag, in key and in value position, lazily and eagerly evaluated
-    "pipeline:\n  - __type__: %(c)s.DummyPool\n__config_test:\n  x: !__yaml_tag_test\n    ? k1\n    : [1, {a: 2}]\n    ? !!str k2\n    : {b: [3]}\n",
-    "pipeline:\n  - __type__: %(c)s.DummyPool\n__config_test:\n  x: !__yaml_tag_test [[1], {c: 4}, !!str s]\n",
-    "pipeline:\n  - !Logger\n    ? name\n    : verif.c18\n    ? !!str message\n    : '%%(value)s'\n  - __type__: %(c)s.DummyPool\n",
-    "pipeline:\n  - !Logger {name: n, level: !!int 20}\n  - __type__: %(c)s.DummyPool\n__config_test:\n  y: !__yaml_tag_test {p: !__yaml_tag_test [q, {r: s}]}\n",
+# documents with an explicit tag at every kind of position; {T<i>} are the tagged nodes (kind in POSITIONS)
+TEMPLATES = [
+    ("--- {T0}\npipeline:\n  - __type__: %(c)s.DummyPool\n__config_test: {T1}\n  x: {T2} [1, 2]\n",
+     [("document root", "map"), ("section value", "map"), ("value inside a section", "seq")]),
+    ("pipeline:\n  - __type__: %(c)s.DummyPool\n__config_test:\n  x: !__yaml_tag_test\n    ? {T0} k1\n    : {T1} [1, {T2} {{a: 2}}]\n",
+     [("key of an eager plugin tag's mapping", "str"), ("value of an eager plugin tag's mapping", "seq"),
+      ("nested inside an eager plugin tag's value", "map")]),
+    ("pipeline:\n  - __type__: %(c)s.DummyPool\n__config_test:\n  x: !__yaml_tag_test [{T0} [1], {T1} {{c: 4}}, {T2} s]\n",
+     [("item of a plugin tag's sequence", "seq"), ("item of a plugin tag's sequence", "map"), ("item of a plugin tag's sequence", "str")]),
+    ("pipeline:\n  - !Logger\n    ? {T0} name\n    : {T1} verif.c18\n  - __type__: %(c)s.DummyPool\n",
+     [("key of a lazy plugin tag's mapping", "str"), ("value of a lazy plugin tag's mapping", "str")]),
+    ("pipeline:\n  - {T0}\n    __type__: %(c)s.DummyPool\n",
+     [("pipeline element", "map")]),
+    ("pipeline:\n  - __type__: %(c)s.DummyPool\n__config_test:\n  <<: {T0} {{a: 1}}\n  b: 2\n",
+     [("value of a merge key", "map")]),
 ]
+BENIGN_TAG = {"str": "!!str", "seq": "!!seq", "map": "!!map"}
+
+
+def _render(template, positions, attack=None):
+    tags = {}
+    for i, (where, kind) in enumerate(positions):
+        tags["T%d" % i] = BENIGN_TAG[kind] if i != attack else "!!python/object/apply:%s.fire" % CANARY
+    return (template % {"c": CANARY}).format(**tags)
 
 
 def funnel_check(cls):
-    """cobald's own constructors must route every child node through construct_object (the z3 claim
-    is about construct_object's dispatch).  Concrete: load documents with a spy subclass of the
-    captured loader class and compare the visited nodes with the composed tree."""
+    """(1) every node of a benign document with explicit tags everywhere must reach construct_object when the
+    document goes through cobald's own load_configuration with a spy subclass of the captured loader - the z3
+    claim is about construct_object's dispatch; (2) the same documents with a python/object/apply canary at one
+    position at a time must be rejected by the real load().  -> (problems, documents checked)"""
+    import cobald.daemon.config.yaml as yaml_mod
     problems, docs = [], 0
+    instances = []
 
     class SpyLoader(cls):
-        def construct_document(self, node):
-            self._root = node
-            return super().construct_document(node)
+        def __init__(self, stream):
+            super().__init__(stream)
+            self._visited, self._roots = set(), []
+            instances.append(self)
+
+        def compose_document(self):
+            node = super().compose_document()
+            self._roots.append(node)
+            return node
 
         def construct_object(self, node, deep=False):
-            self.__dict__.setdefault("_visited", set()).add(id(node))
+            self._visited.add(id(node))
             return super().construct_object(node, deep=deep)
 
     def walk(node, out):
@@ -416,24 +443,47 @@ def funnel_check(cls):
                 walk(k, out)
                 walk(v, out)
 
-    for text in FUNNEL_DOCS:
+    plugins = config_mod.load_section_plugins("cobald.config.sections")
+    for template, positions in TEMPLATES:
         docs += 1
-        text = text % {"c": CANARY}
-        loader = SpyLoader(text)
+        text = _render(template, positions)
+        fd, path = tempfile.mkstemp(suffix=".yaml", prefix="verif_c18_")
+        del instances[:]
         try:
-            loader.get_single_data()
-        except Exception as e:
-            problems.append(("funnel document failed to load: %s: %s" % (type(e).__name__, e), text))
-            continue
+            with os.fdopen(fd, "w") as f:
+                f.write(text)
+            try:
+                yaml_mod.load_configuration(path, loader=SpyLoader, plugins=plugins)
+            except Exception as e:
+                problems.append({"position": "benign document", "document": text,
+                                 "problem": "benign document failed to load: %s: %s" % (type(e).__name__, e), "attack": None})
+                continue
         finally:
-            loader.dispose()
-        nodes = []
-        walk(loader._root, nodes)
-        missed = [n for n in nodes if id(n) not in loader._visited]
-        if missed:
-            problems.append(("node %s %r (line %d) never reached construct_object: its tag is ignored"
-                             % (missed[0].tag, getattr(missed[0], "value", None) if isinstance(missed[0], yaml.ScalarNode) else "...",
-                                missed[0].start_mark.line + 1), text))
+            os.unlink(path)
+        for ld in instances:
+            nodes = []
+            for r in ld._roots:
+                walk(r, nodes)
+            for n in nodes:
+                if id(n) not in ld._visited:
+                    where = "line %d col %d" % (n.start_mark.line + 1, n.start_mark.column + 1)
+                    problems.append({"position": "unvisited node", "document": text, "attack": None,
+                                     "problem": "node %s at %s never reached construct_object: its tag is ignored" % (n.tag, where)})
+                    break
+        if not instances or not any(ld._roots for ld in instances):
+            problems.append({"position": "benign document", "document": text, "attack": None,
+                             "problem": "the document was not read through the loader class handed to load_configuration"})
+        # (2) one canary tag at a time
+        for i, (where, kind) in enumerate(positions):
+            docs += 1
+            attack = _render(template, positions, attack=i)
+            canary = importlib.import_module(CANARY)
+            canary.reset()
+            err, _ = _load_doc(attack)
+            if err is None or canary.FIRED:
+                problems.append({"position": where, "document": attack, "attack": i,
+                                 "problem": "document with a python/object/apply tag at '%s' was %s" % (
+                                     where, "accepted" if err is None else "rejected only after the canary fired")})
     return problems, docs
 
 
@@ -481,17 +531,20 @@ def run(tier, seed):
     funnel_docs = 0
     for cls in dict.fromkeys(classes):
         problems, funnel_docs = funnel_check(cls)
-        for msg, text in problems:
-            # confirm through the real load(): a python/* tag at the unvisited position must be rejected
-            key_doc = ("pipeline:\n  - __type__: %s.DummyPool\n__config_test:\n  x: !__yaml_tag_test\n"
-                       "    ? !!python/name:%s.fire k\n    : 1\n" % (CANARY, CANARY))
-            err, _ = _load_doc(key_doc)
-            violations.append({"harness": "funnel", "label": "every node is routed through construct_object",
-                               "status": "confirmed" if err is None else "unconfirmed (document rejected)",
-                               "kind": "custom", "module": MOD, "property": PROPERTY, "params": {"loader": cls.__name__},
-                               "inputs": {"problem": msg, "document": key_doc if err is None else text,
-                                          "tag": "tag:yaml.org,2002:python/name:%s.fire" % CANARY, "position": "mapping key"}})
-            break
+        confirmed = {}
+        for pr in problems:
+            if pr["attack"] is not None:
+                confirmed[pr["position"]] = pr
+        for pr in problems:
+            if pr["attack"] is None and not confirmed:
+                # an unvisited node that no attack document confirms: report as engine-level doubt
+                engine_errors.append("funnel: %s" % pr["problem"])
+        for where, pr in confirmed.items():
+            violations.append({"harness": "position", "label": "a python/* tag at every position is rejected",
+                               "status": "confirmed", "kind": "custom", "module": MOD, "property": PROPERTY,
+                               "params": {"loader": cls.__name__},
+                               "inputs": {"position": where, "document": pr["document"], "problem": pr["problem"],
+                                          "tag": "tag:yaml.org,2002:python/object/apply:%s.fire" % CANARY}})
     for u in stats["unknown"]:
         engine_errors.append("solver returned unknown for: %s" % u)
     # concrete end-to-end spot checks of the rejection path (trusted-base sanity, not the verdict)
@@ -529,11 +582,11 @@ def run(tier, seed):
                    "SafeConstructor's own methods build only plain data",
                    "installed entry points of group cobald.config.yaml_constructors are the registered plugins"]
     return core.finish(PROPERTY, tier, seed, "model_checking", coverage, assumptions, t0, violations,
-                       engine_errors, [], {})
+                       engine_errors, [], PREDICATES)
 
 
 def replay(v):
-    if v.get("harness") == "funnel":
+    if v.get("harness") in ("funnel", "position"):
         err, _ = _load_doc(v["inputs"]["document"])
         print("REPRODUCED (document accepted)" if err is None else "not reproduced on this tree: %s" % type(err).__name__)
         return 1 if err is None else 0
